@@ -877,6 +877,15 @@ def _render(template, callable_, args, data, as_unicode=False):
     return context._pop_buffer().getvalue()
 
 
+def _kwonly_names(callable_):
+    """the keyword-only argument names of a render callable."""
+
+    co = getattr(callable_, "__func__", callable_).__code__
+    return list(
+        co.co_varnames[co.co_argcount : co.co_argcount + co.co_kwonlyargcount]
+    )
+
+
 def _kwargs_for_callable(callable_, data):
     argspec = compat.inspect_getargspec(callable_)
     # for normal pages, **pageargs is usually present
@@ -885,6 +894,7 @@ def _kwargs_for_callable(callable_, data):
 
     # for rendering defs from the top level, figure out the args
     namedargs = argspec[0] + [v for v in argspec[1:3] if v is not None]
+    namedargs += _kwonly_names(callable_)
     kwargs = {}
     for arg in namedargs:
         if arg != "context" and arg in data and arg not in kwargs:
@@ -895,6 +905,7 @@ def _kwargs_for_callable(callable_, data):
 def _kwargs_for_include(callable_, data, /, **kwargs):
     argspec = compat.inspect_getargspec(callable_)
     namedargs = argspec[0] + [v for v in argspec[1:3] if v is not None]
+    namedargs += _kwonly_names(callable_)
     for arg in namedargs:
         if arg != "context" and arg in data and arg not in kwargs:
             kwargs[arg] = data[arg]
